@@ -228,7 +228,11 @@ def check_case(case):
             crop.sow_cases(fn_args, list(dcases), constants=sc, verbosity=0,
                            **skw)
         elif kind == "grid":
-            crop.sow_combos(copy.deepcopy(dcombos), constants=sc,
+            gc = copy.deepcopy(dcombos)
+            if core.pick([n, mode, req, shuffle, "gen"], 4) == 0:
+                # (the values of each argument as a one-shot iterator)
+                gc = {a: iter(v) for a, v in gc.items()}
+            crop.sow_combos(gc, constants=sc,
                             shuffle=shuffle, verbosity=0, **skw)
         else:
             crop.sow_combos(copy.deepcopy(dcombos),
